@@ -116,6 +116,26 @@ func BuildPool(seed int64, id int) *CallPool {
 			p.Calls = append(p.Calls, PoolCall{API: api, A: malformed[r.Intn(len(malformed))], B: -1, Patch: x.patch, Indent: ind, Opts: o, Class: "malformed", SharedOpt: so})
 		}
 	}
+	// patches that fail part-way (after operations that succeeded and left their traces: copies
+	// accounted, removes done, members added), with each of the shared option values
+	fdoc := addIn(`{"a":{"b":[1,2,3],"c":"x<y"},"d":null,"arr":[{"k":1},{"k":2}],"s":"0123456789012345678901234567890123456789"}`)
+	for _, ft := range []string{
+		`[{"op":"copy","from":"/a","path":"/a2"},{"op":"test","path":"/a/c","value":"nope"}]`,
+		`[{"op":"copy","from":"/s","path":"/s2"},{"op":"copy","from":"/s","path":"/s3"},{"op":"copy","from":"/s","path":"/s4"}]`,
+		`[{"op":"copy","from":"/arr/0","path":"/arr/-"},{"op":"move","from":"/nope","path":"/x"}]`,
+		`[{"op":"remove","path":"/nope"},{"op":"move","from":"/a/","path":"/y"},{"op":"remove","path":"/alsonope/deeper"}]`,
+		`[{"op":"add","path":"/n/e/w","value":{"k":null}},{"op":"move","from":"/arr/5","path":"/z"}]`,
+		`[{"op":"move","from":"/arr/-2","path":"/first"},{"op":"replace","path":"/q/r","value":1}]`,
+		`[{"op":"copy","from":"/a/b","path":"/a/b/-"},{"op":"remove","path":"/arr/7"},{"op":"test","path":"/d","value":1}]`,
+	} {
+		pi := addIn(ft)
+		p.PatchInputs = append(p.PatchInputs, pi)
+		pidx := len(p.PatchInputs) - 1
+		for so := range sharedOptSets {
+			p.Calls = append(p.Calls, PoolCall{API: "ApplyWithOptions", A: fdoc, B: -1, Patch: pidx, Opts: sharedOptSets[so], Class: "fails-part-way", SharedOpt: so})
+		}
+		p.Calls = append(p.Calls, PoolCall{API: "Apply", A: fdoc, B: -1, Patch: pidx, Opts: V5Opts{NegIdx: true, EscapeHTML: true}, Class: "fails-part-way", SharedOpt: -1})
+	}
 	for i := 0; i < 8; i++ {
 		docT := mprof.Any(r)
 		d := addIn(docT)
